@@ -14,13 +14,13 @@ CLAIMED = {
             "DESIGN.md §3 C12"),
     "C33": ("exploration",
             "deterministic simulation: macro-generated async proxy (task) and blocking proxy (simulator-driven real thread) against the macro-generated interfaces (one hand-written, 16 generated with methods, properties and signals of generated types) over a pair of real connections; typed model of the handlers",
-            "An async proxy on a task and a blocking proxy on a baton thread call every method of the corpus interface with seeded values, read and write its properties and receive its signal, under seeded schedules and read splits. Results, handler-side argument values, property read-after-write and both signal streams must match a typed model. The generated family adds: typed method round trips, persistent property proxies (cached and uncached, at the interface's own path and on a shared object where property names of different interfaces collide) with read-after-write through a model, and typed signals received by async streams and blocking iterators.",
+            "An async proxy on a task and a blocking proxy on a baton thread call every method of the corpus interface with seeded values, read and write its properties and receive its signal, under seeded schedules and read splits. Results, handler-side argument values, property read-after-write and both signal streams must match a typed model. The generated family adds: typed method round trips, persistent property proxies (cached and uncached, at the interface's own path and on a shared object where property names of different interfaces collide) with read-after-write through a model, and typed signals received by async streams and blocking iterators. The hand-written pair also covers a method taking and returning several file descriptors and signal streams filtered on an argument (receive_*_with_args).",
             "The generated family is fixed per build (macros expand at compile time; tools/gen_corpus.py --seed N regenerates it), so the 'programs' quantifier is sampled per build, not per run.",
             "DESIGN.md §3 C33"),
     "C25": ("exploration",
             "deterministic simulation: a real tracking client (snapshot + ordered signal replay) against at/remove histories incl. (re)registering the ObjectManager, with an operation racing the snapshot",
-            "A real client takes GetManagedObjects while a server operation may run concurrently, then applies the InterfacesAdded/Removed signals it received since, in order and idempotently - the weakest client that could possibly work. After every further operation its view must equal a fresh listing (properties included). Operations also run as concurrent pairs (add || add, add || remove, remove || snapshot, with an async yielding property getter); for those the oracle only asks that some order of the pair explains the client's final view. In a quarter of the runs the last at/remove is cancelled at a seeded await point: whether it took effect is open, the client must still track.",
-            "Nested managers are excluded (the implementation documents them as unsupported); one root manager or two sibling managers are used.",
+            "A real client takes GetManagedObjects while a server operation may run concurrently, then applies the InterfacesAdded/Removed signals it received since, in order and idempotently - the weakest client that could possibly work. After every further operation its view must equal a fresh listing (properties included). Operations also run as concurrent pairs (add || add, add || remove, remove || snapshot, with an async yielding property getter); for those the oracle only asks that some order of the pair explains the client's final view. A client of an inner manager also sees an outer manager at the root come and go (nested managers, judged from the inside). In a quarter of the runs the last at/remove is cancelled at a seeded await point: whether it took effect is open, the client must still track.",
+            "A client of the root manager never sees a second manager (the root's listing would include objects that only an inner manager announces; the implementation documents that case as unsupported); nesting is judged from the inside only.",
             "DESIGN.md §3 C25"),
     "C28": ("exploration",
             "deterministic simulation: Get/GetAll/Set histories (sequential and pipelined) from a raw client against the real Properties interface of a hand-written and of 16 generated interfaces; linearizability against a property-map model plus signal accounting",
@@ -39,17 +39,17 @@ CLAIMED = {
             "DESIGN.md §3 C32"),
     "C36": ("exploration",
             "deterministic simulation: RequestName/ReleaseName histories against a conformant fake bus with seeded reply delays, genuine and forged ownership signals, direct RequestName calls, cancelled requests; name-status reference model",
-            "A real bus-mode connection (handshake + Hello) runs histories (half drawn blindly, half guided by a simulation of the bus) of request/release, direct RequestName calls that bypass the bookkeeping (so the bus itself answers AlreadyOwner later), and requests/releases cancelled at a seeded await point, interleaved with bus-side events (another connection owning, releasing, taking over names; forged NameAcquired/NameLost from a peer). After each step the observable behaviour (local AlreadyOwner/InQueue answers without bus traffic vs. exactly one RequestName on the bus; release true iff held or queued) must equal the {none, owner, queued} model.",
+            "A real bus-mode connection (handshake + Hello) runs histories (half drawn blindly, half guided by a simulation of the bus) of request/release, direct RequestName calls that bypass the bookkeeping (so the bus itself answers AlreadyOwner later), requests after which the owner releases the name at that very instant (NameAcquired right behind the InQueue reply), and requests/releases cancelled at a seeded await point, interleaved with bus-side events (another connection owning, releasing, taking over names; forged NameAcquired/NameLost from a peer). After each step the observable behaviour (local AlreadyOwner/InQueue answers without bus traffic vs. exactly one RequestName on the bus; release true iff held or queued) must equal the {none, owner, queued} model.",
             "One operation at a time with quiescence in between; the fake bus follows the specification's name-queue rules.",
             "DESIGN.md §3 C36"),
     "C37": ("exploration",
             "deterministic simulation: stream / proxy / signal-stream create-drop histories (concurrent pairs, cancelled creations and drops) against a fake bus that records AddMatch / RemoveMatch",
-            "Batches of one or two concurrent operations create and drop MessageStreams over overlapping rules, proxies and proxy signal streams (sync and async drops); in a third of the runs one bus-talking operation is cancelled at a seeded await point. After every batch the rules registered on the fake bus must equal the distinct signal rules with a live subscriber, each exactly once, with no duplicate AddMatch and no RemoveMatch of an unregistered rule.",
+            "Batches of one or two concurrent operations create and drop MessageStreams over overlapping rules, proxies and proxy signal streams (sync and async drops); in a third of the runs one bus-talking operation is cancelled at a seeded await point, and now and then the bus refuses an AddMatch (that creation must fail and leave nothing behind). After every batch the rules registered on the fake bus must equal the distinct signal rules with a live subscriber, each exactly once, with no duplicate AddMatch and no RemoveMatch of an unregistered rule.",
             "Expected rule strings are produced with zbus's own MatchRule formatter (string identity is all that matters here).",
             "DESIGN.md §3 C37"),
     "C39": ("exploration",
             "deterministic simulation: seeded sets of connection handles dropped in seeded orders (with graceful_shutdown) while slow handlers are in flight; peer-observed EOF compared with handle lifetime",
-            "Side A holds clones, streams, proxies (with and without a property-cache task), a signal stream and an InterfaceRef plus in-flight handlers sleeping on the simulated clock; the director drops them in a seeded order with a seeded number of scheduler steps in between. The raw peer must see EOF by quiescence iff every handle is gone, never earlier, after the replies of all started handlers; graceful_shutdown must complete iff everything else is gone and write nothing afterwards.",
+            "Side A holds clones, streams, proxies (with and without a property-cache task), a signal stream and an InterfaceRef plus in-flight handlers sleeping on the simulated clock; the director drops them in a seeded order with a seeded number of scheduler steps in between. The raw peer must see EOF by quiescence iff every handle is gone, never earlier, after the replies of all started handlers; every graceful_shutdown (one, or one per clone that goes, so that several are pending) must complete iff everything else is gone and write nothing afterwards; creations of handles cancelled midway must leave nothing behind.",
             "The simulated socket closes when both halves are dropped (as the real Arc-shared socket does).",
             "DESIGN.md §3 C39"),
     "C30": ("exploration",
@@ -64,12 +64,12 @@ CLAIMED = {
             "DESIGN.md §3 C24"),
     "C26": ("exploration",
             "deterministic simulation: seeded call mixes (valid, wrong path/interface/member/arguments, no-reply) in flight against the real object server and macro-generated handlers; replies decoded independently and compared with a table model",
-            "A raw peer keeps several calls in flight against the hand-written corpus interface registered at two paths and against 16 generated interfaces (about 56 methods whose signatures were drawn from the type grammar by tools/gen_corpus.py; handlers log a canonical rendering of the arguments they received, compared with the oracle's rendering of what was sent; one run in 30 is a flood of 70..110 calls) (sync/async, &self/&mut self, fallible and custom-error handlers, handlers sleeping on the simulated clock). The handler log must equal exactly the matching calls, and each call must get exactly one reply with the right serial, signature and value or the right standard error.",
+            "A raw peer keeps several calls in flight against the hand-written corpus interface registered at two paths and against 16 generated interfaces (about 56 methods whose signatures were drawn from the type grammar by tools/gen_corpus.py; handlers log a canonical rendering of the arguments they received, compared with the oracle's rendering of what was sent; one run in 30 is a flood of 70..110 calls; one run in eight ends with a &mut self handler that only returns once a later call to another interface has run) (sync/async, &self/&mut self, fallible and custom-error handlers, handlers sleeping on the simulated clock). The handler log must equal exactly the matching calls, and each call must get exactly one reply with the right serial, signature and value or the right standard error.",
             "The generated corpus is fixed per build (macros expand at compile time), not per run; the no-reply flag on error paths and an extra argument to a zero-argument method are judged leniently.",
             "DESIGN.md §3 C26"),
     "C29": ("exploration",
             "deterministic simulation: bursts of calls to spawn=false handlers that yield or sleep on the simulated clock, under seeded scheduling",
-            "Bursts of calls to a spawn = false interface (handlers returning, yielding, sleeping simulated microseconds; &self and &mut self) mixed with calls to a spawning interface, with and without NO_REPLY_EXPECTED; one run in 25 is a flood of 70..140 calls, more than the dispatch queue holds. The start/end log of the no-spawn handlers must show no overlap and wire order; every call must be answered exactly once by quiescence.",
+            "Bursts of calls to a spawn = false interface (handlers returning, yielding, sleeping simulated microseconds; &self and &mut self) mixed with calls to a spawning interface, with and without NO_REPLY_EXPECTED; and with Properties.Set calls on a property of the no-spawn interface whose &mut self setter takes a while; one run in 25 is a flood of 70..140 calls, more than the dispatch queue holds. The start/end log of the no-spawn handlers must show no overlap and wire order; every call must be answered exactly once by quiescence.",
             "Wire order = the order the raw peer wrote the calls in.",
             "DESIGN.md §3 C29"),
     "C15": ("exploration",
@@ -89,7 +89,7 @@ CLAIMED = {
             "DESIGN.md §3 C13"),
     "C38": ("fault_enumeration",
             "deterministic simulation with exhaustive fault placement: EOF / half-close EOF / ECONNRESET at every inbound byte offset and EPIPE at every early write call, plus Connection::close() by the application at every message count, of scripted sessions, several seeded schedules each",
-            "For two fixed sessions (pending calls, unfiltered + rule stream, object server, then a late call and subscription) every inbound byte offset x {EOF whole socket, EOF inbound half, ECONNRESET} and the first 6 write calls x EPIPE and close() after n = 0..len messages are enumerated under 4 seeded schedule/read-split profiles each; thorough adds seeded random sessions. Oracle: streams yield exactly what was completely received before the failure, optionally one error, then end; pending calls complete accordingly; later work fails; quiescence with an open obligation is a hang.",
+            "For two fixed sessions (pending calls, unfiltered + rule stream, object server, then a late call and subscription) every inbound byte offset x {EOF whole socket, EOF inbound half, ECONNRESET} and the first 6 write calls x EPIPE and close() after n = 0..len messages are enumerated under 4 seeded schedule/read-split profiles each (a quarter of them with a rule stream whose queue is exactly full at the failure and a late consumer); thorough adds seeded random sessions. Oracle: streams yield exactly what was completely received before the failure, optionally one error, then end; pending calls complete accordingly; later work fails; quiescence with an open obligation is a hang.",
             "Fault positions are exhaustive for the fixed sessions; schedules per position are sampled.",
             "DESIGN.md §3 C38"),
     "C18": ("exploration",
